@@ -128,6 +128,10 @@ func MainWith(prop string, extra []*drv.Domain) {
 	d("real-closure-h6", "as above, h=6, 3 hash functions", "t", tRealClosure)
 	d("real-chain-h6", "whole key life, real hashes, h=6: two lock-step walkers (Sign / SetIndex), every boundary jump from every state, 3 hash functions; trace validated against symbolic", "", qRealChain)
 	d("real-chain-h8-12", "whole key life, real hashes, h=8,10 (3 hash functions) and h=12 (SHAKE-128)", "t", tRealChain)
+	if prop == "C06" {
+		// C06 is about real hash values: the symbolic domains do not apply
+		qSymClosure, tSymClosure, qSymChain, tSymChain = nil, nil, nil, nil
+	}
 	d("sym-closure", "BFS closure, symbolic Merkle algebra, complete alphabet, h=4,6,8", "", qSymClosure)
 	d("sym-closure-h10", "BFS closure, symbolic, complete alphabet, h=10", "t", tSymClosure)
 	d("sym-chain", "whole key life, symbolic, every even h 4..16: every index, lock-step walkers, boundary jumps", "", qSymChain)
